@@ -99,7 +99,7 @@ def build(kind, op, log, results, nch, fail=-1, value=0):
 
     def stub():
         i = len(stubs)
-        s = Stub(log, i, results[i] if i < len(results) else None, raises=(i == fail))
+        s = Stub(log, i, results[i % len(results)] if results else None, raises=(i == fail))
         stubs.append(s)
         return s
 
